@@ -236,7 +236,7 @@ def run(report, p):
             r1.check(okk and "detect_renaming" in f.params, f, call, "paths are subtracted from the expected set outside rename detection", witness=show(sub)[:200])
         # the rewrite comprehension (here or in a helper this function calls)
         sites = rename_rewrite_sites(p, pr, f)
-        if not sites and any(is_call(o, "set_of_file_paths") for o in origs):
+        if not sites and arg0 is not None and any(is_call(o, "set_of_file_paths") for o in pr.origins(arg0, f)):
             r1.check(False, f, call, "the recorded paths go to the missing-file check without being mapped through the rename map: every file renamed under -dr is reported missing by this command", construct="expected set without rename rewrite")
             continue
         if len(sites) != 1:
